@@ -70,6 +70,10 @@ def readCmdAns : Rd CmdAnswer := do
     let out ← str
     pure (.exit c out)
   | "spawnerr" => pure .spawnErr
+  | "signal" =>
+    let c ← nat
+    let out ← str
+    pure (.signal c out)
   | x => throw s!"bad cmd answer {x}"
 
 def readDb : Rd DbScript := do
